@@ -495,6 +495,233 @@ mod stack_model {
     }
 }
 
+// ---------------------------------------------------------------- C11: equality / ordering laws on a value pool
+mod value_laws {
+    use liquid_core::model::{Object, State, Value, ValueViewCmp};
+    use std::cmp::Ordering;
+
+    fn obj(pairs: &[(&str, Value)]) -> Value {
+        let mut o = Object::new();
+        for (k, v) in pairs {
+            o.insert((*k).to_owned().into(), v.clone());
+        }
+        Value::Object(o)
+    }
+    /// the pool, built by `build` - called twice so that every value exists in two independently constructed copies
+    pub fn build(rev: bool) -> Vec<(String, Value, bool)> {
+        // (name, value, contains NaN)
+        let mut v: Vec<(String, Value, bool)> = vec![];
+        let mut add = |n: &str, x: Value, nan: bool| v.push((n.to_string(), x, nan));
+        add("nil", Value::Nil, false);
+        add("true", Value::scalar(true), false);
+        add("false", Value::scalar(false), false);
+        for i in [0i64, 1, -1, 2, 1 << 53, (1 << 53) + 1, i64::MAX, i64::MIN] {
+            add(&format!("int {i}"), Value::scalar(i), false);
+        }
+        for f in [0.0f64, -0.0, 0.5, 1.0, 2.0, 9007199254740992.0, f64::INFINITY, f64::NEG_INFINITY] {
+            add(&format!("float {f:?}"), Value::scalar(f), false);
+        }
+        add("float NaN", Value::scalar(f64::NAN), true);
+        for s in ["", " ", "1", "true", "a", "A", "é", "ab"] {
+            add(&format!("str {s:?}"), Value::scalar(s.to_owned()), false);
+        }
+        add("empty", Value::State(State::Empty), false);
+        add("blank", Value::State(State::Blank), false);
+        add("[]", Value::Array(vec![]), false);
+        add("[1]", Value::Array(vec![Value::scalar(1i64)]), false);
+        add("[1,2]", Value::Array(vec![Value::scalar(1i64), Value::scalar(2i64)]), false);
+        add("[1.0,2]", Value::Array(vec![Value::scalar(1.0f64), Value::scalar(2i64)]), false);
+        add("[[1]]", Value::Array(vec![Value::Array(vec![Value::scalar(1i64)])]), false);
+        add("[nil]", Value::Array(vec![Value::Nil]), false);
+        add("{}", obj(&[]), false);
+        add("{k:1}", obj(&[("k", Value::scalar(1i64))]), false);
+        // multi-key objects: the two copies are built in opposite insertion orders
+        let many: Vec<(String, Value)> = (0..12).map(|i| (format!("key{i}"), Value::scalar(i as i64))).collect();
+        let mut keys: Vec<(&str, Value)> = many.iter().map(|(k, v)| (k.as_str(), v.clone())).collect();
+        let mut ab = vec![("a", Value::scalar(1i64)), ("b", Value::scalar(2i64))];
+        let mut ab3 = vec![("a", Value::scalar(1i64)), ("b", Value::scalar(3i64))];
+        if rev {
+            keys.reverse();
+            ab.reverse();
+            ab3.reverse();
+        }
+        add("{a:1,b:2}", obj(&ab), false);
+        add("{a:1,b:3}", obj(&ab3), false);
+        add("{key0..key11}", obj(&keys), false);
+        add("[{a:1,b:2}]", Value::Array(vec![obj(&ab)]), false);
+        v
+    }
+
+    pub fn run() -> Result<usize, String> {
+        let p1 = build(false);
+        let p2 = build(true);
+        let mut n = 0;
+        for (i, (na, a, nan_a)) in p1.iter().enumerate() {
+            let a2 = &p2[i].1;
+            for (j, (nb, b, nan_b)) in p1.iter().enumerate() {
+                let b2 = &p2[j].1;
+                let (ca, cb) = (ValueViewCmp::new(a), ValueViewCmp::new(b));
+                let (ca2, cb2) = (ValueViewCmp::new(a2), ValueViewCmp::new(b2));
+                n += 1;
+                let eq = ca == cb;
+                if eq != (cb == ca) {
+                    return Err(format!("equality is not symmetric: ({na}) == ({nb}) is {eq}, the mirrored comparison is {}", cb == ca));
+                }
+                if (ca != cb) == eq {
+                    return Err(format!("!= is not the negation of == for ({na}), ({nb})"));
+                }
+                let ab = ca.partial_cmp(&cb);
+                let ba = cb.partial_cmp(&ca);
+                if ab != ba.map(|o| o.reverse()) {
+                    return Err(format!("< and > are not duals: cmp(({na}), ({nb})) = {ab:?}, cmp(({nb}), ({na})) = {ba:?}"));
+                }
+                if eq && matches!(ab, Some(Ordering::Less) | Some(Ordering::Greater)) {
+                    return Err(format!("({na}) == ({nb}) but they are strictly ordered: {ab:?}"));
+                }
+                if ab.is_some() {
+                    if (ca <= cb) != ((ca < cb) || eq) {
+                        return Err(format!("({na}) <= ({nb}) is {} but (< or ==) is {}", ca <= cb, (ca < cb) || eq));
+                    }
+                    if (ca >= cb) != ((ca > cb) || eq) {
+                        return Err(format!("({na}) >= ({nb}) is {} but (> or ==) is {}", ca >= cb, (ca > cb) || eq));
+                    }
+                }
+                // construction independence: the independently built copies compare the same way
+                if (ca2 == cb2) != eq || (ca == cb2) != eq || (ca2 == cb) != eq {
+                    return Err(format!("({na}) == ({nb}) depends on how the values were built"));
+                }
+                if ca2.partial_cmp(&cb2) != ab || ca.partial_cmp(&cb2) != ab || ca2.partial_cmp(&cb) != ab {
+                    return Err(format!("the ordering of ({na}) and ({nb}) depends on how the values were built: {ab:?} vs {:?} / {:?} / {:?}",
+                                       ca2.partial_cmp(&cb2), ca.partial_cmp(&cb2), ca2.partial_cmp(&cb)));
+                }
+                if i == j && !nan_a && !nan_b {
+                    if !(ca == ca2) {
+                        return Err(format!("({na}) is not equal to an independently built copy of itself"));
+                    }
+                    if matches!(ca.partial_cmp(&ca2), Some(Ordering::Less) | Some(Ordering::Greater)) {
+                        return Err(format!("({na}) is strictly ordered against an independently built copy of itself"));
+                    }
+                }
+            }
+        }
+        // an integer and a float denoting the same number are equal (|x| <= 2^53)
+        for x in [0i64, 1, -1, 2, 1 << 53, -(1 << 53), 123456789] {
+            let (i, f) = (Value::scalar(x), Value::scalar(x as f64));
+            if !(ValueViewCmp::new(&i) == ValueViewCmp::new(&f)) || !(ValueViewCmp::new(&f) == ValueViewCmp::new(&i)) {
+                return Err(format!("integer {x} and float {x}.0 are not equal"));
+            }
+        }
+        Ok(n)
+    }
+}
+
+// ---------------------------------------------------------------- C12: views and conversions of a datum agree
+mod conversions {
+    use liquid_core::model::{to_value, Object, State, Value, ValueCow, ValueView, ValueViewCmp};
+
+    fn check(name: &str, v: &Value) -> Result<(), String> {
+        let owned = v.to_value();
+        let cow_b: ValueCow<'_> = ValueCow::Borrowed(v);
+        let cow_o: ValueCow<'_> = ValueCow::Owned(v.clone());
+        let views: [(&str, &dyn ValueView); 4] = [("to_value", &owned), ("ValueCow::Borrowed", &cow_b), ("ValueCow::Owned", &cow_o), ("as_view", cow_o.as_view())];
+        let nan = format!("{}", v.source()).contains("NaN");
+        for (vn, w) in views {
+            if w.type_name() != v.type_name() {
+                return Err(format!("{name}: kind changes through {vn}: {} vs {}", w.type_name(), v.type_name()));
+            }
+            if w.to_kstr() != v.to_kstr() || format!("{}", w.render()) != format!("{}", v.render()) || format!("{}", w.source()) != format!("{}", v.source()) {
+                return Err(format!("{name}: printed form changes through {vn}"));
+            }
+            for st in [State::Truthy, State::DefaultValue, State::Empty, State::Blank] {
+                if w.query_state(st) != v.query_state(st) {
+                    return Err(format!("{name}: {st:?} answer changes through {vn}"));
+                }
+            }
+            if w.is_nil() != v.is_nil() || w.is_scalar() != v.is_scalar() || w.is_array() != v.is_array() || w.is_object() != v.is_object() || w.is_state() != v.is_state() {
+                return Err(format!("{name}: kind predicates change through {vn}"));
+            }
+            if !nan && !(ValueViewCmp::new(w) == ValueViewCmp::new(v)) {
+                return Err(format!("{name}: not equal to itself through {vn}"));
+            }
+        }
+        // serde round trip Value -> JSON text -> Value (states and NaN/inf have no JSON form)
+        if !nan && !v.is_state() && !format!("{}", v.source()).contains("inf") {
+            if let Ok(js) = serde_json::to_string(v) {
+                match serde_json::from_str::<Value>(&js) {
+                    Ok(back) => {
+                        if !(ValueViewCmp::new(&back) == ValueViewCmp::new(v)) || back.type_name() != v.type_name() {
+                            return Err(format!("{name}: JSON round trip gives {} for {}", back.source(), v.source()));
+                        }
+                    }
+                    Err(e) => return Err(format!("{name}: JSON {js} does not read back: {e}")),
+                }
+            }
+        }
+        Ok(())
+    }
+
+    pub fn run() -> Result<usize, String> {
+        let pool = super::value_laws::build(false);
+        let mut n = 0;
+        for (name, v, _) in &pool {
+            check(name, v)?;
+            n += 1;
+        }
+        // integers across the u64 / i64 boundary: the same integer, a float, or an error - never a different integer
+        for x in [0u64, 1, i64::MAX as u64 - 1, i64::MAX as u64, i64::MAX as u64 + 1, u64::MAX - 1, u64::MAX] {
+            n += 1;
+            match to_value(&x) {
+                Ok(v) => match v.as_scalar().and_then(|s| s.to_integer()) {
+                    Some(i) => {
+                        if x > i64::MAX as u64 || i as u64 != x {
+                            return Err(format!("to_value({x}u64) became the different integer {i}"));
+                        }
+                    }
+                    None => {
+                        if v.as_scalar().and_then(|s| s.to_float()).is_none() {
+                            return Err(format!("to_value({x}u64) is neither an integer nor a float"));
+                        }
+                    }
+                },
+                Err(_) => {
+                    if x <= i64::MAX as u64 {
+                        return Err(format!("to_value({x}u64) was rejected although it fits"));
+                    }
+                }
+            }
+        }
+        for x in [i64::MIN, -1, 0, i64::MAX] {
+            n += 1;
+            let v = to_value(&x).map_err(|e| format!("to_value({x}i64): {e}"))?;
+            if v.as_scalar().and_then(|s| s.to_integer()) != Some(x) {
+                return Err(format!("to_value({x}i64) is {}", v.source()));
+            }
+        }
+        // JSON text -> Value: big integers
+        for (js, exact) in [("9223372036854775807", Some(i64::MAX)), ("-9223372036854775808", Some(i64::MIN)), ("9223372036854775808", None), ("18446744073709551615", None)] {
+            n += 1;
+            match serde_json::from_str::<Value>(js) {
+                Ok(v) => {
+                    let i = v.as_scalar().and_then(|s| s.to_integer());
+                    match (exact, i) {
+                        (Some(e), Some(i)) if e == i => {}
+                        (Some(e), other) => return Err(format!("JSON {js} read as {other:?}, expected {e}")),
+                        (None, Some(i)) => return Err(format!("JSON {js} (outside i64) became the integer {i}")),
+                        (None, None) => {}
+                    }
+                }
+                Err(_) => {
+                    if exact.is_some() {
+                        return Err(format!("JSON {js} was rejected although it fits"));
+                    }
+                }
+            }
+        }
+        let _ = Object::new();
+        Ok(n)
+    }
+}
+
 fn expect_holds(e: &serde_json::Value, res: &Res) -> bool {
     if let Some(s) = e.get("output").and_then(|s| s.as_str()) {
         matches!(res, Ok(Ok(o)) if o == s)
@@ -554,6 +781,16 @@ fn run(w: &serde_json::Value) -> (bool, String) {
             (holds, rs.iter().map(show).collect::<Vec<_>>().join(" vs "))
         }
         "sink_faults" => sink_faults(w),
+        "value_laws" => match panic::catch_unwind(value_laws::run) {
+            Ok(Ok(n)) => (true, format!("{n} ordered pairs satisfy the equality/ordering laws")),
+            Ok(Err(e)) => (false, e),
+            Err(p) => (false, format!("PANIC {:?}", panic_msg(p))),
+        },
+        "conversions" => match panic::catch_unwind(conversions::run) {
+            Ok(Ok(n)) => (true, format!("{n} values agree across their views and conversions")),
+            Ok(Err(e)) => (false, e),
+            Err(p) => (false, format!("PANIC {:?}", panic_msg(p))),
+        },
         "stack_model" => {
             let depth = w.get("depth").and_then(|d| d.as_u64()).unwrap_or(2) as usize;
             match panic::catch_unwind(move || stack_model::run(depth)) {
